@@ -14,6 +14,8 @@ static const char *const ctr_names[VF_NCTR] = {
 
 static wexp_cfg CF, CF2, CF3;
 static int ALPHA[WO_FIRST_NOENC];
+static const int ALPHA_BIG[] = { WO_OBJ_BEGIN, WO_NAME_A, WO_INT_1, WO_STR_128, WO_STR_40000, WO_BYT_32768, WO_OBJ_END };
+static wexp_cfg CF4;
 static const int ALPHA_SMALL[] = { WO_OBJ_BEGIN, WO_OBJ_END, WO_ARR_BEGIN, WO_TRUE, WO_INT_1, WO_INT_128, WO_INT_2P31, WO_DOUBLE, WO_STR_0, WO_STR_1, WO_STR_128, WO_STRZ_AB, WO_BYT_1, WO_RAW_0, WO_RAW_2, WO_P2W };
 static void worker(int w, int W, uint64_t start)
 {
@@ -23,7 +25,9 @@ static void worker(int w, int W, uint64_t start)
     wexp_index_base = 0;
     if (start < (1ULL << 40)) wexp_explore(&CF, w, W, start, "writer");
     if (CF2.K) { wexp_index_base = 1ULL << 40; if (start < (2ULL << 40)) wexp_explore(&CF2, w, W, start >= (1ULL << 40) ? start - (1ULL << 40) : 0, "writer"); }
-    if (CF3.K) { wexp_index_base = 2ULL << 40; wexp_explore(&CF3, w, W, start >= (2ULL << 40) ? start - (2ULL << 40) : 0, "writer"); }
+    if (CF3.K) { wexp_index_base = 2ULL << 40; if (start < (3ULL << 40)) wexp_explore(&CF3, w, W, start >= (2ULL << 40) ? start - (2ULL << 40) : 0, "writer"); }
+    /* pass 4: payloads of 32768 and 40000 bytes (4-byte length prefix), capacities around every piece boundary */
+    wexp_index_base = 3ULL << 40; wexp_explore(&CF4, w, W, start >= (3ULL << 40) ? start - (3ULL << 40) : 0, "writer");
 }
 int main(int argc, char **argv)
 {
@@ -34,22 +38,24 @@ int main(int argc, char **argv)
     CF.K = vf_g.thorough ? 4 : 3;
     const char *e;
     if ((e = getenv("VERIF_K"))) CF.K = atoi(e);
-    for (int i = 0; i < WO_FIRST_NOENC; i++) ALPHA[i] = i;
-    CF.alpha = ALPHA; CF.nalpha = WO_FIRST_NOENC;
+    for (int i = 0; i < WO_FIRST_BIG; i++) ALPHA[i] = i;
+    CF.alpha = ALPHA; CF.nalpha = WO_FIRST_BIG;
     CF.with_noenc = CF.K <= 3;
     memset(&CF2, 0, sizeof CF2); memset(&CF3, 0, sizeof CF3);
+    CF4 = CF; CF4.K = vf_g.thorough ? 4 : 3; CF4.alpha = ALPHA_BIG; CF4.nalpha = 7; CF4.with_noenc = false;
     if (vf_g.thorough) {
         CF2 = CF; CF2.K = CF.K + 1; CF2.alpha = ALPHA_SMALL; CF2.nalpha = 16; CF2.with_noenc = false;
         CF3 = CF; CF3.K = 3; CF3.with_noenc = true;
     }
     if (vf_g.replay) { char *t = vf_replay_load(vf_g.replay); return wexp_replay(&CF, t); }
     int deaths = vf_run_workers(worker);
-    static char bound[900];
+    static char bound[1400];
     snprintf(bound, sizeof bound,
              "every sequence of <= %d operations over %d write operations (begin/end object/array, booleans, integers at every width boundary, double, "
              "string_with_len 0/1/127/128/300, write_string, write_name, bytes 0/1/128, write_raw 0/2, parser_to_writer)%s x EVERY capacity from 0 to encoded size + 1; "
              "destination = heap block of exactly 'capacity' bytes pre-filled with 0xA5, under ASan",
              CF.K, CF.nalpha, (CF.with_noenc || CF3.K) ? ", plus each of 6 calls that have no encoding (length > INT32_MAX, SIZE_MAX, NULL sources, raw lengths that wrap the counter) inserted at every position of every sequence of <= 3 operations" : "");
+    snprintf(bound + strlen(bound), sizeof bound - strlen(bound), "; every sequence of <= %d operations over 7 operations incl. string_with_len(40000) and bytes(32768) x every capacity within 3 of a piece boundary", CF4.K);
     if (CF2.K) snprintf(bound + strlen(bound), sizeof bound - strlen(bound), "; additionally every sequence of <= %d operations over a 16-operation sub-alphabet x every capacity", CF2.K);
     static const char *const assumptions[] = {
         "pieces are the units the writer stores atomically: a one-byte token, an integer/double token, a length descriptor, a payload",
